@@ -265,7 +265,40 @@ def step(system, op, check):
         elif np.asarray(a).tobytes() != e.tobytes():
             bad.append(({'kind': 'values', 'code': lp['types'][ti]['channels'][c]['code']},
                         'frame type %d channel %d selection %r channels %r: got %r expected %r' % (ti, c, sel, chs, np.asarray(a).tolist(), e.tolist())))
+    if not bad:
+        bad.extend(check_accessors(system, ti))
     return bad
+
+
+def check_accessors(system, ti):
+    """The lesser ways of reaching a channel or a frame array agree with the lists: by position, by identity, len, keys, X axis."""
+    lp_obj = system.lf.log_pass
+    fa = lp_obj.frame_arrays[ti]
+    why = []
+    try:
+        if len(fa) != len(fa.channels):
+            why.append('len(frame array) = %r for %d channels' % (len(fa), len(fa.channels)))
+        idents = [ch.ident for ch in fa.channels]
+        if list(fa.keys()) != idents:
+            why.append('keys() %r, channel identities %r' % (list(fa.keys()), idents))
+        for i, ch in enumerate(fa.channels):
+            if fa[i] is not ch:
+                why.append('frame_array[%d] is not channel %d' % (i, i))
+            if idents.count(ch.ident) == 1 and (not fa.has(ch.ident) or fa[ch.ident] is not ch):
+                why.append('frame_array[%r] is not channel %d' % (ch.ident, i))
+            if len(ch) != len(ch.array):
+                why.append('len(channel %d) = %r, array of %d frames' % (i, len(ch), len(ch.array)))
+            if len(ch.array) and np.asarray(ch[0]).tobytes() != np.asarray(ch.array[0]).tobytes():
+                why.append('channel %d [0] differs from its array' % i)
+        if fa.channels and fa.x_axis is not fa.channels[0]:
+            why.append('x_axis is not the first channel')
+        if list(fa.shape) != [ch.shape for ch in fa.channels]:
+            why.append('shape %r, channel shapes %r' % (fa.shape, [ch.shape for ch in fa.channels]))
+        if len(lp_obj) != len(lp_obj.frame_arrays) or lp_obj[ti] is not fa or not lp_obj.has(fa.ident) or lp_obj[fa.ident] is not fa:
+            why.append('log pass lookup of frame array %d by position / identity' % ti)
+    except Exception as err:  # noqa
+        why.append('%s: %s' % (type(err).__name__, err))
+    return [({'kind': 'accessor_disagrees'}, 'frame type %d: %s' % (ti, w)) for w in why[:1]]
 
 
 def check_index(system):
